@@ -9,6 +9,7 @@
     random integer-valued data recorded and validated by TLC.
 """
 import json
+import ctypes
 import random
 
 import numpy as np
@@ -191,19 +192,25 @@ def drive_idft_overlay(rec, cases, ns):
     rec.data["ok"] = ok
 
 
-def compaction_legal(n, rs, rsl, size, asl):
-    """res == a as base pointer, res limbs at i*rsl, source limbs at j*asl: a limb that is computed from a source limb (i < min) must
-    coincide with its own source or be disjoint from it, and must not touch a source limb that is still to be read (j > i); the limbs that
-    are only zero-filled (i >= size) come last and may land anywhere inside the vector"""
+def compaction_legal(n, rs, rsl, size, asl, r0=0, a0=0, descending=False):
+    """result limbs at r0 + i*rsl, source limbs at a0 + j*asl (cells of one buffer): a limb that is computed from a source limb (i < min)
+    must coincide with its own source or be disjoint from it, and must not touch a source limb that is still to be read (the limbs are
+    taken in ascending order - descending for the normalisation, which starts at the least significant limb); the limbs that are only
+    zero-filled (i >= size) come last and may land anywhere inside the vector"""
     def inter(x, y):
         return x < y + n and y < x + n
-    for i in range(min(rs, size)):
-        r = i * rsl
-        if inter(r, i * asl) and r != i * asl:
+    order = list(range(min(rs, size)))
+    if descending:
+        order.reverse()
+    for pos, i in enumerate(order):
+        r = r0 + i * rsl
+        if inter(r, a0 + i * asl) and r != a0 + i * asl:
             return False
-        for j in range(i + 1, size):
-            if inter(r, j * asl):
+        for j in order[pos + 1:]:
+            if inter(r, a0 + j * asl):
                 return False
+    if rsl < n and rs > 1:
+        return False
     return True
 
 
@@ -220,16 +227,23 @@ def drive_compaction(rec, quick):
         for mk, mt, mask in (("fft64", FFT64, MASK_NONE), ("fft64-generic", FFT64, MASK_GENERIC), ("ntt120", NTT120, MASK_NONE)):
             mod = L.module(n, mt, mask)
             L.set_cpu_mask(MASK_NONE)
-            shapes = [(size, rs, rsl, asl) for (size, rs) in ((1, 1), (2, 2), (3, 3), (3, 2), (2, 3), (2, 4), (2, 5), (3, 5), (3, 7), (4, 8), (1, 3))
+            shapes = [(size, rs, rsl, asl, 0, 0) for (size, rs) in ((1, 1), (2, 2), (3, 3), (3, 2), (2, 3), (2, 4), (2, 5), (3, 5), (3, 7), (4, 8), (1, 3))
                       for (rsl, asl) in ((n, 2 * n), (n + 1, 2 * n + 2), (n + 2, 2 * n + 2), (n, 3 * n), (n, 2 * n + 1))
                       if compaction_legal(n, rs, rsl, size, asl)]
+            # the two vectors start at different places of one buffer and share single limbs (rows of a table moved to other rows)
+            shapes += [(size, rs, rsl, asl, r0, a0) for (size, rs) in ((2, 2), (3, 3), (3, 2), (4, 4))
+                       for (rsl, asl, r0, a0) in ((4 * n, 3 * n, 0, n), (n, 3 * n, n, 0), (n, 2 * n, n, 0), (3 * n, 4 * n, n, 0), (2 * n, 2 * n, 0, n),
+                                                  (2 * n, 2 * n, n, 0), (n, 2 * n, 2 * n, 0), (3 * n, n, 0, n))
+                       if compaction_legal(n, rs, rsl, size, asl, r0, a0)]
             for op in ("rotate", "automorphism", "copy", "negate", "add:a", "add:b", "sub:a", "sub:b"):
-                for (size, rs, rsl, asl) in shapes:
-                    words = max((size - 1) * asl, (rs - 1) * rsl) + n
-                    B = Buf(8 * words, fill=0x4D)
+                for (size, rs, rsl, asl, r0, a0) in shapes:
+                    words = max(a0 + (size - 1) * asl, r0 + (rs - 1) * rsl) + n
+                    B0 = Buf(8 * words, fill=0x4D)
                     src = [vecops.role_data(rec.seed + 9, "a", j, n, 50) for j in range(size)]
                     for j in range(size):
-                        B.i64[j * asl:j * asl + n] = src[j]
+                        B0.i64[a0 + j * asl:a0 + j * asl + n] = src[j]
+                    B = ctypes.c_void_p(B0.addr + 8 * r0)          # the result vector
+                    Bs = ctypes.c_void_p(B0.addr + 8 * a0)         # the aliased source vector
                     p = rng.choice([1, 3, n + 1, 2 * n - 1, 5, -7, 0, 2 * n])
                     if op == "automorphism":
                         p |= 1                      # (an even exponent is not an automorphism: outside the domain)
@@ -240,19 +254,19 @@ def drive_compaction(rec, quick):
                     oth = [vecops.role_data(rec.seed + 11, "b", j, n, 50) for j in range(osz)]
                     for j in range(osz):
                         O.i64[j * osl:j * osl + n] = oth[j]
-                    label = "%s[%s] N=%d size=%d res_size=%d res is the %s operand, res_sl=%d its stride as operand=%d%s p=%d" % (
-                        op.split(":")[0], mk, n, size, rs, "second" if op.endswith(":b") else "first", rsl, asl,
+                    label = "%s[%s] N=%d size=%d res_size=%d res shares its buffer with the %s operand (res at +%d stride %d, operand at +%d stride %d)%s p=%d" % (
+                        op.split(":")[0], mk, n, size, rs, "second" if op.endswith(":b") else "first", r0, rsl, a0, asl,
                         (", other operand %d limbs" % osz) if binary else "", p)
                     if not rec.progress(label):
                         continue
                     if not binary:
-                        vecops.call_op(L, mod, op, p, B, rs, rsl, B, size, asl, B, 0, n)
+                        vecops.call_op(L, mod, op, p, B, rs, rsl, Bs, size, asl, Bs, 0, n)
                     elif op.endswith(":a"):
-                        vecops.call_op(L, mod, op[:3], p, B, rs, rsl, B, size, asl, O, osz, osl)
+                        vecops.call_op(L, mod, op[:3], p, B, rs, rsl, Bs, size, asl, O, osz, osl)
                     else:
-                        vecops.call_op(L, mod, op[:3], p, B, rs, rsl, O, osz, osl, B, size, asl)
-                    rec.case(("compaction", op, mk, size, rs, rsl - n, asl - n))
-                    if not (B.canaries_ok() and O.canaries_ok()):
+                        vecops.call_op(L, mod, op[:3], p, B, rs, rsl, O, osz, osl, Bs, size, asl)
+                    rec.case(("compaction", op, mk, size, rs, rsl - n, asl - n, r0, a0))
+                    if not (B0.canaries_ok() and O.canaries_ok()):
                         rec.violation(label + ": write outside the vector", {})
                         continue
                     bad = None
@@ -268,11 +282,37 @@ def drive_compaction(rec, quick):
                         elif binary:
                             o = oth[i] if i < osz else zero
                             e = (e + o) if op.startswith("add") else ((e - o) if op.endswith(":a") else (o - e))
-                        if not np.array_equal(B.i64[i * rsl:i * rsl + n], e):
+                        if not np.array_equal(B0.i64[r0 + i * rsl:r0 + i * rsl + n], e):
                             bad = i
                             break
                     if bad is not None:
                         rec.violation(label + ": output limb %d is not the operation applied to the operand limbs %d as passed" % (bad, bad), {"limb": bad})
+                    else:
+                        ok += 1
+            # normalisation over its own input with another stride (the limbs are taken from the last one up): against the same call with a
+            # separate result
+            if mk != "ntt120" or True:
+                for (size, rs, rsl, asl) in [(sz, r, rl, al) for (sz, r) in ((2, 2), (3, 3), (3, 2), (4, 4)) for (rl, al) in ((2 * n, n), (2 * n + 3, n), (3 * n, n + 1))
+                                             if compaction_legal(n, r, rl, sz, al, 0, 0, descending=True)]:
+                    k = rng.choice([1, 7, 19, 44, 62])
+                    words = max((size - 1) * asl, (rs - 1) * rsl) + n
+                    B0, S, R2 = Buf(8 * words, fill=0x4D), Buf(8 * ((size - 1) * asl + n), fill=0x4D), Buf(8 * words, fill=0x4D)
+                    for j in range(size):
+                        v = vecops.role_data(rec.seed + 13, "a", j, n, 61)
+                        B0.i64[j * asl:j * asl + n] = v
+                        S.i64[j * asl:j * asl + n] = v
+                    tmp = Buf(L.call("vec_znx_normalize_base2k_tmp_bytes", mod), fill=0x5A)
+                    label = "vec_znx_normalize_base2k[%s] N=%d k=%d size=%d res_size=%d over its own input, res_sl=%d a_sl=%d" % (mk, n, k, size, rs, rsl, asl)
+                    if not rec.progress(label):
+                        continue
+                    L.call("vec_znx_normalize_base2k", mod, k, B0, rs, rsl, B0, size, asl, tmp)
+                    L.call("vec_znx_normalize_base2k", mod, k, R2, rs, rsl, S, size, asl, tmp)
+                    rec.case(("expansion", "normalize", mk, size, rs, rsl - n, asl - n))
+                    same = all(np.array_equal(B0.i64[i * rsl:i * rsl + n], R2.i64[i * rsl:i * rsl + n]) for i in range(rs))
+                    if not (B0.canaries_ok() and R2.canaries_ok() and tmp.canaries_ok()):
+                        rec.violation(label + ": write outside a buffer", {})
+                    elif not same:
+                        rec.violation(label + ": differs from the same call with a separate result", {})
                     else:
                         ok += 1
             L.delete_module(mod)
